@@ -120,3 +120,369 @@ Proof.
     replace (length l + (128 - length l mod 128))%nat with (128 * (length l / 128 + 1))%nat by lia.
     rewrite Nat.mul_comm. apply Nat.mod_mul. lia.
 Qed.
+
+(* ---------- the FAT fills exactly the sectors the layout reserved for it ---------- *)
+Lemma fat_loop_minimal : forall fuel sectors f f' d', fat_loop fuel sectors f = Some (f', d') ->
+  f' = f \/ (sectors + (f' - 1) + difat_for (f' - 1) + 127) / 128 > f' - 1.
+Proof.
+  induction fuel as [|k IH]; intros sectors f f' d' H; cbn [fat_loop] in H; [discriminate|].
+  destruct (Z.gtb_spec ((sectors + f + difat_for f + 127) / 128) f) as [Hgt|Hle].
+  - destruct (IH _ _ _ _ H) as [E|G]; [|right; assumption]. right. subst f'. replace (f + 1 - 1) with f by lia. lia.
+  - inversion H; subst. left; reflexivity.
+Qed.
+
+Lemma sumN_app a b : sumN (a ++ b) = (sumN a + sumN b)%nat.
+Proof. induction a as [|x a IH]; cbn [app sumN fold_right]; [reflexivity|]. unfold sumN in *. lia. Qed.
+
+Lemma sumZ_cons x l : sumZ (x :: l) = x + sumZ l.
+Proof.
+  unfold sumZ. cbn [fold_left]. assert (G : forall l a b, fold_left Z.add l (a + b) = a + fold_left Z.add l b).
+  { induction l0 as [|y r IH]; intros a b; cbn [fold_left]; [reflexivity|]. rewrite <- Z.add_assoc. apply IH. }
+  replace (0 + x) with (x + 0) by lia. apply G.
+Qed.
+
+Lemma fat_sectors_nonneg s : 0 <= s -> 0 <= fat_sectors_of s.
+Proof. intros H. unfold fat_sectors_of, mini_cutoff. destruct (4096 <=? s) eqn:E; lia. Qed.
+Lemma mini_sectors_nonneg s : 0 <= mini_sectors_of s.
+Proof. unfold mini_sectors_of, mini_cutoff. destruct ((0 <? s) && (s <? 4096)) eqn:E; lia. Qed.
+
+Lemma sumN_nsec sizes : (forall s, In s sizes -> 0 <= s) ->
+  Z.of_nat (sumN (map nsec sizes)) = sumZ (map fat_sectors_of sizes).
+Proof.
+  induction sizes as [|s r IH]; intros H; [reflexivity|].
+  cbn [map sumN fold_right]. rewrite sumZ_cons. fold (sumN (map nsec r)).
+  rewrite Nat2Z.inj_add, IH by (intros; apply H; now right).
+  unfold nsec. rewrite Z2Nat.id by (apply fat_sectors_nonneg, H; now left). reflexivity.
+Qed.
+Lemma sumN_nmini sizes : Z.of_nat (sumN (map nmini sizes)) = sumZ (map mini_sectors_of sizes).
+Proof.
+  induction sizes as [|s r IH]; [reflexivity|].
+  cbn [map sumN fold_right]. rewrite sumZ_cons. fold (sumN (map nmini r)).
+  rewrite Nat2Z.inj_add, IH. unfold nmini. rewrite Z2Nat.id by apply mini_sectors_nonneg. reflexivity.
+Qed.
+
+Lemma pad128_exact l f : (128 * (f - 1) < length l <= 128 * f)%nat \/ (length l = 0 /\ f = 0)%nat ->
+  length (pad128 l) = (128 * f)%nat.
+Proof.
+  intros H. destruct (pad128_length l) as [Hm Hb].
+  pose proof (Nat.div_mod (length (pad128 l)) 128 ltac:(lia)) as Hd. rewrite Hm in Hd. lia.
+Qed.
+
+(* facts about a layout that locate returned *)
+Lemma ceil128_le x f : (x + 127) / 128 <= f <-> x <= 128 * f.
+Proof. lia. Qed.
+Lemma ceil128_gt x f : (x + 127) / 128 > f <-> x > 128 * f.
+Proof. lia. Qed.
+Lemma ceil128_bounds x : 0 <= x -> x <= 128 * ((x + 127) / 128) /\ (x = 0 \/ 128 * ((x + 127) / 128 - 1) < x).
+Proof. lia. Qed.
+Lemma difat_for_mono f : 0 <= f -> difat_for (f - 1) <= difat_for f.
+Proof. intros H. unfold difat_for. destruct (Z.gtb_spec (f - 1) 109); destruct (Z.gtb_spec f 109); lia. Qed.
+Lemma difat_for_small f : f <= 109 -> difat_for f = 0.
+Proof. intros H. unfold difat_for. destruct (Z.gtb_spec f 109); lia. Qed.
+
+Lemma locate_inv fuel sizes npaths g : locate_with fuel sizes npaths = Some g ->
+  let mini := sumZ (map mini_sectors_of sizes) in
+  let big := sumZ (map fat_sectors_of sizes) in
+  let sectors := (mini + 7) / 8 + big + (npaths + 3) / 4 + (mini + 127) / 128 in
+  exists f d, fat_loop fuel sectors ((sectors + 127) / 128) = Some (f, d) /\
+    g = mkGeo d f ((mini + 127) / 128) ((npaths + 3) / 4) big mini
+          (1 + d + f + (mini + 127) / 128 + (npaths + 3) / 4 + big)
+          (1 + d + f + (mini + 127) / 128 + (npaths + 3) / 4 + big + (mini + 7) / 8).
+Proof.
+  intros H. unfold locate_with in H. cbv zeta in *.
+  destruct (fat_loop fuel _ _) as [[f d]|] eqn:E; [|discriminate].
+  exists f, d. split; [reflexivity|]. inversion H. reflexivity.
+Qed.
+
+Lemma locate_facts fuel sizes npaths g : (forall s, In s sizes -> 0 <= s) -> 0 <= npaths -> locate_with fuel sizes npaths = Some g ->
+  let mini := sumZ (map mini_sectors_of sizes) in
+  let sectors := (mini + 7) / 8 + g_big g + g_dir g + g_minifat g in
+  0 <= g_difat g /\ 0 <= g_fat g /\ 0 <= g_minifat g /\ 0 <= g_dir g /\ 0 <= mini /\
+  g_mini g = mini /\ g_big g = sumZ (map fat_sectors_of sizes) /\ 0 <= g_big g /\ g_minifat g = (mini + 127) / 128 /\
+  ((128 * (g_fat g - 1) < g_difat g + g_fat g + sectors <= 128 * g_fat g) \/ (g_difat g + g_fat g + sectors = 0 /\ g_fat g = 0)).
+Proof.
+  intros Hs Hn H. apply locate_inv in H. cbv zeta in *. destruct H as (f & d & E & ->).
+  cbn [g_mini g_big g_dir g_minifat g_fat g_difat g_ministream_start g_end].
+  destruct (fat_loop_post _ _ _ _ _ E) as (Hd & Hf & Hc).
+  pose proof (fat_loop_minimal _ _ _ _ _ E) as Hmin. clear E.
+  set (mini := sumZ (map mini_sectors_of sizes)) in *. set (big := sumZ (map fat_sectors_of sizes)) in *.
+  assert (Hmini : 0 <= mini).
+  { apply sum_nonneg. intros x Hx. apply in_map_iff in Hx. destruct Hx as (s & <- & Hin). apply mini_sectors_nonneg. }
+  assert (Hbig : 0 <= big).
+  { apply sum_nonneg. intros x Hx. apply in_map_iff in Hx. destruct Hx as (s & <- & Hin). apply fat_sectors_nonneg, Hs, Hin. }
+  assert (Hms : 0 <= (mini + 7) / 8) by (clear - Hmini; apply Z.div_pos; lia).
+  assert (Hmf : 0 <= (mini + 127) / 128) by (clear - Hmini; apply Z.div_pos; lia).
+  assert (Hdir : 0 <= (npaths + 3) / 4) by (clear - Hn; apply Z.div_pos; lia).
+  clearbody mini big. clear Hs.
+  remember ((mini + 127) / 128) as mf eqn:Emf.
+  set (ms := (mini + 7) / 8) in *. set (dir := (npaths + 3) / 4) in *.
+  clearbody ms dir.
+  set (sectors := ms + big + dir + mf) in *.
+  assert (Hsec : 0 <= sectors) by (clear - Hms Hbig Hdir Hmf; unfold sectors; lia).
+  destruct (ceil128_bounds sectors Hsec) as (Hb1 & Hb2).
+  assert (Hf0 : 0 <= f).
+  { assert (0 <= (sectors + 127) / 128) by (apply Z.div_pos; lia). lia. }
+  destruct (difat_covers f Hf0) as (H1 & H2 & H3).
+  pose proof (difat_for_mono f Hf0) as Hmono.
+  apply ceil128_le in Hc.
+  assert (Hfinal : 128 * (f - 1) < d + f + sectors <= 128 * f \/ d + f + sectors = 0 /\ f = 0).
+  { destruct Hmin as [Emin|Gmin].
+    - destruct Hb2 as [Z0|Hb2].
+      + right. assert (f = 0) by (subst f; rewrite Z0; reflexivity).
+        assert (d = 0) by (subst d; apply difat_for_small; lia). lia.
+      + left. set (f0 := (sectors + 127) / 128) in *. clearbody f0. lia.
+    - apply ceil128_gt in Gmin. left. set (f0 := (sectors + 127) / 128) in *. clearbody f0.
+      set (dm := difat_for (f - 1)) in *. clearbody dm. subst d. set (dd := difat_for f) in *. clearbody dd. lia. }
+  set (f0 := (sectors + 127) / 128) in *. clearbody f0.
+  subst d. set (dd := difat_for f) in *. clearbody dd.
+  repeat split; try lia.
+Qed.
+
+Lemma repeat_app_length {A} (x y : A) a b : length (repeat x a ++ repeat y b) = (a + b)%nat.
+Proof. rewrite app_length, !repeat_length. reflexivity. Qed.
+
+(* ---------- the FAT as written ---------- *)
+(* every statement below is about the table the writer emits for the layout locate computed:
+   - it fills exactly the g_fat sectors reserved for it (so the sectors written after it are where the header and
+     the directory say they are);
+   - the chain of every stream of 4096 bytes and more, of the mini FAT, of the directory and of the mini stream
+     container is read back as the consecutive sectors from its start sector, as many as its size requires;
+   - those intervals are pairwise disjoint and follow each other in layout order;
+   - the start sectors the writer stores in the header (mini FAT: d+f, directory: d+f+minifat) and in the root
+     entry (mini stream container: g_ministream_start - 1) are the starts of these chains. *)
+Theorem fat_table_chains fuel sizes npaths g t st :
+  (forall s, In s sizes -> 0 <= s) -> 0 <= npaths -> locate_with fuel sizes npaths = Some g ->
+  fat_table g sizes = (t, st) ->
+  let lens := fat_lens g sizes in
+  Z.of_nat (length t) = 128 * g_fat g /\
+  length st = length lens /\
+  (forall j, (j < length lens)%nat -> (0 < nth j lens O)%nat ->
+     walk t (nth j lens O) (nth j st FREE) = Some (seqZ (nth j st FREE) (nth j lens O))) /\
+  (forall j k, (j < k)%nat -> (k < length lens)%nat -> nth j st FREE + Z.of_nat (nth j lens O) <= nth k st FREE) /\
+  (forall j, (j < length lens)%nat ->
+     nth j st FREE = g_difat g + g_fat g + Z.of_nat (sumN (firstn j lens))) /\
+  nth 0 st FREE = g_difat g + g_fat g /\
+  nth 1 st FREE = g_difat g + g_fat g + g_minifat g /\
+  nth (S (S (length sizes))) st FREE = g_ministream_start g - 1.
+Proof.
+  intros Hs Hn Hloc Ht lens.
+  pose proof (locate_facts fuel sizes npaths g Hs Hn Hloc) as F. cbv zeta in F.
+  destruct F as (Hd & Hf & Hmf & Hdir & Hmini & Emini & Ebig & Hbig & Emf & Hsize).
+  pose proof (locate_with_geometry fuel sizes npaths g Hs Hn Hloc) as G. cbv zeta in G.
+  destruct G as (_ & _ & _ & _ & _ & Estart & _ & _).
+  unfold fat_table in Ht.
+  destruct (alloc (g_difat g + g_fat g) (fat_lens g sizes)) as [e st'] eqn:Ea.
+  inversion Ht; subst t st'. clear Ht.
+  pose proof (alloc_length (fat_lens g sizes) (g_difat g + g_fat g)) as [Le Ls]. rewrite Ea in Le, Ls. cbn [fst snd] in Le, Ls.
+  assert (Hsum : Z.of_nat (sumN lens) = g_minifat g + g_dir g + g_big g + (g_mini g + 7) / 8).
+  { unfold lens, fat_lens. cbn [sumN fold_right]. fold (sumN (map nsec sizes ++ [Z.to_nat ((g_mini g + 7) / 8)])).
+    rewrite sumN_app. cbn [sumN fold_right]. rewrite !Nat2Z.inj_add, sumN_nsec by assumption.
+    rewrite <- Ebig. assert (0 <= (g_mini g + 7) / 8) by (apply Z.div_pos; lia). lia. }
+  assert (Hms0 : 0 <= (g_mini g + 7) / 8) by (apply Z.div_pos; lia).
+  split.
+  { set (pre := repeat DIFSECT (Z.to_nat (g_difat g)) ++ repeat FATSECT (Z.to_nat (g_fat g)) ++ e).
+    assert (Lpre : Z.of_nat (length pre) = g_difat g + g_fat g + (g_minifat g + g_dir g + g_big g + (g_mini g + 7) / 8)).
+    { unfold pre. rewrite !app_length, !repeat_length, Le. fold lens. lia. }
+    rewrite (pad128_exact pre (Z.to_nat (g_fat g))); [lia|].
+    rewrite Emini in *. set (ms := (sumZ (map mini_sectors_of sizes) + 7) / 8) in *. clearbody ms.
+    clear - Lpre Hsize Hf Hd Hmf Hdir Hbig Hms0. lia. }
+  split; [exact Ls|].
+  assert (Hlenlens : length lens = S (S (S (length sizes)))).
+  { unfold lens, fat_lens. cbn [length]. rewrite app_length, map_length. cbn [length]. lia. }
+  split.
+  { intros j Hj Hpos. apply walk_chain; [assumption| |lia].
+    pose proof (alloc_chain_at (fat_lens g sizes) (g_difat g + g_fat g)
+                  (repeat DIFSECT (Z.to_nat (g_difat g)) ++ repeat FATSECT (Z.to_nat (g_fat g)))
+                  (repeat EOC ((128 - length (repeat DIFSECT (Z.to_nat (g_difat g)) ++ repeat FATSECT (Z.to_nat (g_fat g)) ++ e) mod 128) mod 128)%nat)
+                  j ltac:(lia)) as C.
+    rewrite Ea in C. cbn [fst snd] in C. unfold pad128. rewrite <- !app_assoc in *. apply C.
+    - rewrite repeat_app_length. lia.
+    - exact Hj.
+    - exact Hpos. }
+  split.
+  { intros j k Hjk Hk. pose proof (alloc_disjoint (fat_lens g sizes) (g_difat g + g_fat g) j k Hjk Hk) as D.
+    rewrite Ea in D. exact D. }
+  assert (Hstart : forall j, (j < length lens)%nat -> nth j st FREE = g_difat g + g_fat g + Z.of_nat (sumN (firstn j lens))).
+  { intros j Hj. pose proof (alloc_start (fat_lens g sizes) (g_difat g + g_fat g) j Hj) as S0. rewrite Ea in S0. exact S0. }
+  split; [exact Hstart|].
+  split; [rewrite Hstart by lia; cbn [firstn sumN fold_right]; lia|].
+  split.
+  { rewrite Hstart by lia. unfold lens, fat_lens. cbn [firstn sumN fold_right]. lia. }
+  rewrite Hstart by lia.
+  replace (firstn (S (S (length sizes))) lens) with (Z.to_nat (g_minifat g) :: Z.to_nat (g_dir g) :: map nsec sizes).
+  - cbn [sumN fold_right]. fold (sumN (map nsec sizes)). rewrite !Nat2Z.inj_add, sumN_nsec by assumption. rewrite Estart, <- Ebig. lia.
+  - unfold lens, fat_lens. cbn [firstn]. f_equal. f_equal.
+    rewrite firstn_app, map_length, Nat.sub_diag, firstn_O, app_nil_r.
+    rewrite <- (map_length nsec sizes) at 1. rewrite firstn_all. reflexivity.
+Qed.
+
+(* ---------- the mini FAT as written ---------- *)
+Lemma pad128_ceil l : Z.of_nat (length (pad128 l)) = 128 * ((Z.of_nat (length l) + 127) / 128).
+Proof.
+  destruct (pad128_length l) as [Hm Hb].
+  pose proof (Nat.div_mod (length (pad128 l)) 128 ltac:(lia)) as Hd. rewrite Hm in Hd. lia.
+Qed.
+
+Theorem minifat_table_chains fuel sizes npaths g t st :
+  (forall s, In s sizes -> 0 <= s) -> 0 <= npaths -> locate_with fuel sizes npaths = Some g ->
+  minifat_table sizes = (t, st) ->
+  let lens := map nmini sizes in
+  Z.of_nat (length t) = 128 * g_minifat g /\
+  length st = length lens /\
+  (forall j, (j < length lens)%nat -> (0 < nth j lens O)%nat ->
+     walk t (nth j lens O) (nth j st FREE) = Some (seqZ (nth j st FREE) (nth j lens O))) /\
+  (forall j k, (j < k)%nat -> (k < length lens)%nat -> nth j st FREE + Z.of_nat (nth j lens O) <= nth k st FREE) /\
+  (forall j, (j < length lens)%nat -> nth j st FREE = Z.of_nat (sumN (firstn j lens))) /\
+  (* every mini sector lies inside the mini stream container the root entry describes (g_mini mini sectors) *)
+  (forall j, (j < length lens)%nat -> nth j st FREE + Z.of_nat (nth j lens O) <= g_mini g).
+Proof.
+  intros Hs Hn Hloc Ht lens.
+  pose proof (locate_facts fuel sizes npaths g Hs Hn Hloc) as F. cbv zeta in F.
+  destruct F as (Hd & Hf & Hmf & Hdir & Hmini & Emini & Ebig & Hbig & Emf & Hsize).
+  unfold minifat_table in Ht. destruct (alloc 0 (map nmini sizes)) as [e st'] eqn:Ea.
+  inversion Ht; subst t st'. clear Ht.
+  pose proof (alloc_length (map nmini sizes) 0) as [Le Ls]. rewrite Ea in Le, Ls. cbn [fst snd] in Le, Ls.
+  assert (Hstart : forall j, (j < length lens)%nat -> nth j st FREE = Z.of_nat (sumN (firstn j lens))).
+  { intros j Hj. pose proof (alloc_start (map nmini sizes) 0 j Hj) as S0. rewrite Ea in S0. cbn [snd] in S0. rewrite S0. unfold lens. lia. }
+  split; [rewrite pad128_ceil, Le, sumN_nmini, Emf; reflexivity|].
+  split; [exact Ls|].
+  split.
+  { intros j Hj Hpos. apply walk_chain; [assumption| |lia].
+    pose proof (alloc_chain_at (map nmini sizes) 0 [] (repeat EOC ((128 - length e mod 128) mod 128)%nat) j ltac:(lia) eq_refl Hj Hpos) as C.
+    rewrite Ea in C. cbn [fst snd app] in C. exact C. }
+  split.
+  { intros j k Hjk Hk. pose proof (alloc_disjoint (map nmini sizes) 0 j k Hjk Hk) as D. rewrite Ea in D. exact D. }
+  split; [exact Hstart|].
+  intros j Hj. rewrite Hstart by assumption. rewrite Emini, <- sumN_nmini. fold lens.
+  assert (G : forall (l : list nat) a, (a < length l)%nat -> (sumN (firstn a l) + nth a l O <= sumN l)%nat).
+  { induction l as [|x l IHl]; intros a Ha; cbn [length] in Ha; [lia|].
+    destruct a as [|a']; cbn [firstn nth sumN fold_right]; [unfold sumN; lia|].
+    specialize (IHl a' ltac:(lia)). unfold sumN in *. lia. }
+  specialize (G lens j Hj). lia.
+Qed.
+
+(* ---------- contents: what is stored under a chain is what a reader extracts ---------- *)
+Lemma put_blocks_out : forall bs img s k, k < s \/ s + Z.of_nat (length bs) <= k -> put_blocks img s bs k = img k.
+Proof.
+  induction bs as [|b r IH]; intros img s k Hk; cbn [put_blocks]; [reflexivity|].
+  cbn [length] in Hk. rewrite IH by lia. destruct (Z.eqb_spec k s); [lia|reflexivity].
+Qed.
+
+Lemma put_blocks_in : forall bs img s i, (i < length bs)%nat -> put_blocks img s bs (s + Z.of_nat i) = nth i bs [].
+Proof.
+  induction bs as [|b r IH]; intros img s i Hi; cbn [length] in Hi; [lia|].
+  cbn [put_blocks]. destruct i as [|i'].
+  - rewrite put_blocks_out by lia. replace (s + Z.of_nat 0) with s by lia. rewrite Z.eqb_refl. reflexivity.
+  - replace (s + Z.of_nat (S i')) with (s + 1 + Z.of_nat i') by lia. rewrite IH by lia. reflexivity.
+Qed.
+
+Lemma blocks_of_length : forall n bsz c, length (blocks_of bsz n c) = n.
+Proof. induction n as [|m IH]; intros bsz c; cbn [blocks_of length]; [reflexivity|]. rewrite IH. reflexivity. Qed.
+
+Lemma blocks_of_concat : forall n bsz c, (0 < bsz)%nat -> (length c <= bsz * n)%nat ->
+  firstn (length c) (concat (blocks_of bsz n c)) = c.
+Proof.
+  induction n as [|m IH]; intros bsz c Hb Hc.
+  - destruct c; [reflexivity|cbn [length] in Hc; lia].
+  - cbn [blocks_of concat]. destruct (Nat.le_gt_cases (length c) bsz) as [Hle|Hgt].
+    + rewrite (firstn_all2 c Hle). rewrite <- app_assoc. rewrite firstn_app, Nat.sub_diag, firstn_O, app_nil_r, firstn_all. reflexivity.
+    + assert (Lf : length (firstn bsz c) = bsz) by (rewrite firstn_length; lia).
+      rewrite Lf, Nat.sub_diag. cbn [repeat]. rewrite app_nil_r.
+      rewrite firstn_app, Lf. rewrite (firstn_all2 (firstn bsz c)) by lia.
+      assert (Ls : length (skipn bsz c) = (length c - bsz)%nat) by apply skipn_length.
+      rewrite <- Ls. rewrite IH; [apply firstn_skipn|assumption|rewrite Ls; lia].
+Qed.
+
+(* sectors below every later start are not touched by the later streams *)
+Lemma put_streams_below : forall starts lens contents bsz img x,
+  (forall k, (k < length starts)%nat -> x < nth k starts FREE) ->
+  put_streams bsz img starts lens contents x = img x.
+Proof.
+  induction starts as [|s st IH]; intros lens contents bsz img x H; [reflexivity|].
+  destruct lens as [|n ln]; [reflexivity|]. destruct contents as [|c cs]; [reflexivity|].
+  cbn [put_streams]. rewrite IH.
+  - apply put_blocks_out. left. apply (H O). cbn [length]. lia.
+  - intros k Hk. apply (H (S k)). cbn [length]. lia.
+Qed.
+
+Lemma put_streams_at : forall starts lens contents bsz img j i,
+  length starts = length lens -> length contents = length lens ->
+  (forall a b, (a < b)%nat -> (b < length lens)%nat -> nth a starts FREE + Z.of_nat (nth a lens O) <= nth b starts FREE) ->
+  (j < length lens)%nat -> (i < nth j lens O)%nat ->
+  put_streams bsz img starts lens contents (nth j starts FREE + Z.of_nat i) = nth i (blocks_of bsz (nth j lens O) (nth j contents [])) [].
+Proof.
+  induction starts as [|s st IH]; intros lens contents bsz img j i Hl1 Hl2 Hord Hj Hi.
+  - destruct lens; cbn [length] in *; [lia|discriminate].
+  - destruct lens as [|n ln]; [cbn [length] in Hj; lia|]. destruct contents as [|c cs]; [discriminate|].
+    cbn [length] in *. cbn [put_streams]. destruct j as [|j'].
+    + cbn [nth] in *. rewrite put_streams_below.
+      * apply put_blocks_in. rewrite blocks_of_length. assumption.
+      * intros k Hk. specialize (Hord O (S k) ltac:(lia) ltac:(lia)). cbn [nth] in Hord. lia.
+    + cbn [nth] in *. apply IH; try lia.
+      intros a b Hab Hb. apply (Hord (S a) (S b)); lia.
+Qed.
+
+Lemma map_seqZ_blocks : forall n (img : image) s bs, length bs = n ->
+  (forall i, (i < n)%nat -> img (s + Z.of_nat i) = nth i bs []) -> map img (seqZ s n) = bs.
+Proof.
+  induction n as [|m IH]; intros img s bs Hl H.
+  - destruct bs; [reflexivity|discriminate].
+  - destruct bs as [|b r]; [discriminate|]. cbn [seqZ map]. f_equal.
+    + specialize (H O ltac:(lia)). replace (s + Z.of_nat 0) with s in H by lia. exact H.
+    + apply IH; [cbn [length] in Hl; lia|]. intros i Hi. specialize (H (S i) ltac:(lia)).
+      replace (s + 1 + Z.of_nat i) with (s + Z.of_nat (S i)) by lia. exact H.
+Qed.
+
+(* the streams are stored at their start sectors, block after block; a reader that follows the chain of stream j
+   and cuts the sectors to the stream size gets the content of stream j, whatever the other streams hold *)
+Theorem read_back bsz starts lens contents t img j :
+  (0 < bsz)%nat -> length starts = length lens -> length contents = length lens ->
+  (forall a b, (a < b)%nat -> (b < length lens)%nat -> nth a starts FREE + Z.of_nat (nth a lens O) <= nth b starts FREE) ->
+  (j < length lens)%nat ->
+  walk t (nth j lens O) (nth j starts FREE) = Some (seqZ (nth j starts FREE) (nth j lens O)) ->
+  (length (nth j contents []) <= bsz * nth j lens O)%nat ->
+  read_stream (put_streams bsz img starts lens contents) t (nth j lens O) (nth j starts FREE) (length (nth j contents []))
+  = Some (nth j contents []).
+Proof.
+  intros Hb Hl1 Hl2 Hord Hj Hwalk Hsize. unfold read_stream. rewrite Hwalk.
+  rewrite (map_seqZ_blocks (nth j lens O) _ (nth j starts FREE) (blocks_of bsz (nth j lens O) (nth j contents []))).
+  - rewrite blocks_of_concat by assumption. reflexivity.
+  - apply blocks_of_length.
+  - intros i Hi. apply put_streams_at; assumption.
+Qed.
+
+(* the writer and a reader of the FAT, end to end, for the streams that have FAT chains of their own
+   (4096 bytes and more): whatever the mini FAT sectors (mfb), the directory sectors (db) and the mini stream
+   container (cb) hold and whatever was in the image before *)
+Theorem big_stream_read_back fuel contents npaths g t st img mfb db cb j :
+  let sizes := map (fun c : bytes => Z.of_nat (length c)) contents in
+  0 <= npaths -> locate_with fuel sizes npaths = Some g -> fat_table g sizes = (t, st) ->
+  (j < length contents)%nat -> 4096 <= Z.of_nat (length (nth j contents [])) ->
+  read_stream (put_streams 512 img st (fat_lens g sizes) (mfb :: db :: contents ++ [cb])) t
+              (nsec (Z.of_nat (length (nth j contents [])))) (nth (S (S j)) st FREE) (length (nth j contents []))
+  = Some (nth j contents []).
+Proof.
+  intros sizes Hn Hloc Ht Hj Hbig.
+  assert (Hs : forall s, In s sizes -> 0 <= s).
+  { intros s Hin. unfold sizes in Hin. apply in_map_iff in Hin. destruct Hin as (c & <- & _). lia. }
+  destruct (fat_table_chains fuel sizes npaths g t st Hs Hn Hloc Ht) as (_ & Hlen & Hwalk & Hord & _).
+  assert (Lsz : length sizes = length contents) by (unfold sizes; apply map_length).
+  assert (Hlenlens : length (fat_lens g sizes) = S (S (S (length contents)))).
+  { unfold fat_lens. cbn [length]. rewrite app_length, map_length. cbn [length]. lia. }
+  assert (Enth : nth (S (S j)) (fat_lens g sizes) O = nsec (Z.of_nat (length (nth j contents [])))).
+  { unfold fat_lens. cbn [nth]. rewrite app_nth1 by (rewrite map_length; lia).
+    rewrite (nth_indep _ O (nsec 0)) by (rewrite map_length; lia). rewrite map_nth.
+    unfold sizes. rewrite (nth_indep _ 0 (Z.of_nat (length (@nil Z)))) by (rewrite map_length; lia).
+    rewrite (map_nth (fun c : bytes => Z.of_nat (length c))). reflexivity. }
+  assert (Ec : nth (S (S j)) (mfb :: db :: contents ++ [cb]) [] = nth j contents []).
+  { cbn [nth]. apply app_nth1. assumption. }
+  assert (Hpos : (0 < nsec (Z.of_nat (length (nth j contents []))))%nat).
+  { unfold nsec, fat_sectors_of, mini_cutoff. destruct (Z.leb_spec 4096 (Z.of_nat (length (nth j contents [])))); lia. }
+  rewrite <- Enth, <- Ec.
+  apply read_back; try lia.
+  - cbn [length]. rewrite app_length. cbn [length]. lia.
+  - assumption.
+  - apply Hwalk; [lia|]. rewrite Enth. assumption.
+  - unfold bytes in *. rewrite Ec, Enth. unfold nsec, fat_sectors_of, mini_cutoff.
+    destruct (Z.leb_spec 4096 (Z.of_nat (length (nth j contents [])))); lia.
+Qed.
